@@ -947,6 +947,20 @@ Qed.
 Lemma max_int_lt_two64 : max_int < two64.
 Proof. reflexivity. Qed.
 
+Lemma no_overflow_test : forall u d, u * 10 + d < two64 -> N.ltb ((two64 - 1 - d) / 10) u = false.
+Proof.
+  intros u d H. apply N.ltb_ge. apply N.div_le_lower_bound; lia.
+Qed.
+
+Lemma overflow_test_fits : forall u d, d <= 9 -> u <= (two64 - 1 - d) / 10 -> u * 10 + d < two64.
+Proof.
+  intros u d Hd H.
+  assert (H9 : d < two64) by (unfold two64; lia).
+  pose proof (N.mul_div_le (two64 - 1 - d) 10 ltac:(lia)) as Hm.
+  assert (10 * u <= two64 - 1 - d) by (etransitivity; [apply N.mul_le_mono_l; exact H | exact Hm]).
+  lia.
+Qed.
+
 Lemma parse_uint_aux_spec : forall bs u, all_digits bs = true ->
   u * p10 (length bs) + dec bs < two64 ->
   parse_uint_aux u bs = Some (u * p10 (length bs) + dec bs).
@@ -958,8 +972,55 @@ Proof.
     cbn [length] in *. rewrite p10_S in *. rewrite dec_cons in *.
     pose proof (p10_pos (length r)) as Hp.
     assert (Hsmall : u * 10 + dig c < two64) by nia.
-    rewrite (N.mod_small _ _ Hsmall).
+    rewrite (no_overflow_test u (dig c) Hsmall).
     rewrite IH; [f_equal; lia | exact Hd | lia].
+Qed.
+
+(* ParseUint is exact: whatever it returns is the number the digits spell, and it refuses
+   (rather than wraps) exactly when that number does not fit 64 bits *)
+Lemma parse_uint_aux_exact : forall bs u n, all_digits bs = true ->
+  parse_uint_aux u bs = Some n -> n = u * p10 (length bs) + dec bs /\ n < two64 \/ bs = [] /\ n = u.
+Proof.
+  induction bs as [|c r IH]; intros u n Hd H.
+  - right. cbn [parse_uint_aux] in H. inversion H. split; reflexivity.
+  - left. rewrite all_digits_cons in Hd. apply andb_true_iff in Hd. destruct Hd as [Hc Hd].
+    cbn [parse_uint_aux] in H. rewrite Hc in H.
+    destruct (N.ltb ((two64 - 1 - dig c) / 10) u) eqn:Et; [discriminate|].
+    apply N.ltb_ge in Et.
+    assert (Hfit : u * 10 + dig c < two64) by (apply overflow_test_fits; [pose proof (dig_lt10 c Hc); lia | exact Et]).
+    cbn [length]. rewrite p10_S, dec_cons.
+    destruct (IH _ _ Hd H) as [[E L]|[E1 E2]].
+    + split; [rewrite E; lia | exact L].
+    + subst r. subst n. cbn [length]. rewrite p10_0, dec_nil. split; [lia | exact Hfit].
+Qed.
+
+Theorem parse_uint_exact : forall bs n, all_digits bs = true -> parse_uint bs = Some n ->
+  n = dec bs /\ n < two64.
+Proof.
+  intros bs n Hd H. destruct bs as [|c r]; [discriminate|]. unfold parse_uint in H.
+  destruct (parse_uint_aux_exact (c :: r) 0 n Hd H) as [[E L]|[E _]]; [|discriminate].
+  split; [rewrite E; lia | exact L].
+Qed.
+
+Lemma parse_uint_aux_overflow : forall bs u, all_digits bs = true -> u < two64 ->
+  two64 <= u * p10 (length bs) + dec bs -> parse_uint_aux u bs = None.
+Proof.
+  induction bs as [|c r IH]; intros u Hd Hu Hge.
+  - cbn [length] in Hge. rewrite p10_0, dec_nil in Hge. lia.
+  - rewrite all_digits_cons in Hd. apply andb_true_iff in Hd. destruct Hd as [Hc Hd].
+    cbn [parse_uint_aux]. rewrite Hc.
+    destruct (N.ltb ((two64 - 1 - dig c) / 10) u) eqn:Et; [reflexivity|].
+    apply N.ltb_ge in Et.
+    assert (Hfit : u * 10 + dig c < two64) by (apply overflow_test_fits; [pose proof (dig_lt10 c Hc); lia | exact Et]).
+    apply IH; [exact Hd | exact Hfit |].
+    cbn [length] in Hge. rewrite p10_S, dec_cons in Hge. lia.
+Qed.
+
+Theorem parse_uint_refuses_overflow : forall bs, all_digits bs = true -> two64 <= dec bs ->
+  parse_uint bs = None.
+Proof.
+  intros bs Hd Hge. destruct bs as [|c r]; [reflexivity|]. unfold parse_uint.
+  apply parse_uint_aux_overflow; [exact Hd | reflexivity | lia].
 Qed.
 
 Lemma parse_uint_spec : forall ed, nonempty_digits ed = true -> dec ed <= max_int ->
